@@ -53,12 +53,18 @@ def generate(seed, run, tier):
     enabled['forward_only'] = BASE_WEIGHTS['forward_only']
     enabled['perturb_arch'] = BASE_WEIGHTS['perturb_arch']
     swarm = {'aborts': sw.chance(0.3)}
+    p_observer = sw.choice([0.0, 0.1, 0.25])
     n = sw.randint(3, 14 if tier == 'quick' else 24)
     ops = []
     for _ in range(n):
         op = sched.gen_base_op(cfg, rs, enabled, swarm)
         if op['op'] == 'perturb_arch':
             op['style'] = 'gap'
+            op['write'] = rs.choice(['copy', 'copy', 'data', 'data_copy'])
+        if rs.chance(p_observer):
+            # summary / export / cost reads happen at arbitrary moments of a search (e.g. between eval()
+            # and the first eval forward)
+            ops.append({'op': rs.choice(['export', 'summary', 'cost', 'export'])})
         if op['op'] == 'softmax_opts':
             kw = {'temperature': round(rs.loguniform(0.05, 20.0), 4), 'hard': rs.chance(0.5)}
             if cfg['method'] == 'mps':
